@@ -6,6 +6,8 @@ import (
 	"math/rand"
 	"os"
 	"path/filepath"
+	"runtime/debug"
+	"strings"
 
 	asv1 "github.com/pingcap/advanced-statefulset/client/apis/apps/v1"
 	corev1 "k8s.io/api/core/v1"
@@ -177,14 +179,72 @@ func runC15(ctx *Ctx) *Result {
 			w.Srv.Seed(simapi.Pods, world.NewPod(po))
 			c.Pods = append(c.Pods, fmt.Sprintf("%s/%s", po.Name, po.Phase))
 		}
-		w.DeliverAll()
 		if ctx.CurFile != "" {
 			cb, _ := json.Marshal(c)
 			os.WriteFile(ctx.CurFile, cb, 0o644)
 		}
+		// the informer's event handlers run on a goroutine nobody recovers: a panic there takes the whole
+		// controller down, so every delivery (add / update / delete of the object and of its pods) is watched too
+		deliver := func(what string) bool {
+			var p interface{}
+			var stack string
+			func() {
+				defer func() {
+					if p = recover(); p != nil {
+						stack = string(debug.Stack())
+					}
+				}()
+				w.DeliverAll()
+			}()
+			res.Stats["handler_deliveries_watched"]++
+			if p == nil {
+				return true
+			}
+			res.Stats["panics"]++
+			if !reported["h:"+fmt.Sprint(p)] && len(reported) < 6 {
+				reported["h:"+fmt.Sprint(p)] = true
+				res.Violations = append(res.Violations, Witness{Prop: "C15", Clause: "event-handler-panicked", Msg: fmt.Sprintf("an event handler panicked on the %s event of a CRD-admitted object: %v", what, p),
+					Family: "c15", Case: i, Seed: ctx.Seed, Tier: ctx.Tier, Detail: j{"input": c, "stack": stack}})
+			}
+			return false
+		}
+		// pods at the far ends of the ordinal range (and just outside what parses as an ordinal)
+		if r.Intn(5) == 0 {
+			for k := 0; k < 1+r.Intn(2); k++ {
+				name := []string{"web-2147483647", "web-2147483646", "web-2147483648", "web-4294967296", "web-99999999999999999999", "web-00", "web-007", "web--1", "web-1-2"}[r.Intn(9)]
+				if w.GetPod(name) != nil {
+					continue
+				}
+				po := world.PodOpts{Name: name, Labels: map[string]string{"app": "web"}, SetName: "web", Ordinal: 0,
+					Phase:     []corev1.PodPhase{corev1.PodPending, corev1.PodRunning, corev1.PodRunning, corev1.PodFailed, ""}[r.Intn(5)],
+					Scheduled: r.Intn(4) > 0, Ready: r.Intn(2) == 0, Terminating: r.Intn(8) == 0, PodNameLbl: name}
+				if r.Intn(3) > 0 {
+					po.Owner = world.SetOwnerRef(stored)
+				}
+				w.Srv.Seed(simapi.Pods, world.NewPod(po))
+				c.Pods = append(c.Pods, fmt.Sprintf("%s/%s", po.Name, po.Phase))
+				res.Stats["populations_with_extreme_ordinals"]++
+			}
+		}
+		if !deliver("add") {
+			continue
+		}
 		res.sig(string(b) + fmt.Sprint(c.Pods))
 		res.sample(3, c)
 		for k := 0; k < perCase; k++ {
+			if k == 1 {
+				// somebody touches the object (metadata only): an update event with this object as old and new
+				w.EditSet("web", func(s *asv1.StatefulSet) {
+					if s.Labels == nil {
+						s.Labels = map[string]string{}
+					}
+					s.Labels["touched"] = "yes"
+				})
+				res.Stats["set_update_events_delivered"]++
+				if !deliver("update") {
+					break
+				}
+			}
 			rec := w.Reconcile(world.NS + "/web")
 			res.Evaluations++
 			if rec.Panic != nil {
@@ -208,7 +268,14 @@ func runC15(ctx *Ctx) *Result {
 					w.Kubelet(n, "progress")
 				}
 			}
-			w.DeliverAll()
+			if !deliver("pod update") {
+				break
+			}
+			if k == perCase-1 {
+				w.Srv.Remove(simapi.Sets, world.NS, "web")
+				res.Stats["set_delete_events_delivered"]++
+				deliver("delete")
+			}
 		}
 	}
 	return res
@@ -224,14 +291,72 @@ func runC15Hostile(ctx *Ctx) *Result {
 	return res
 }
 
+// runC15Churn: long template histories. One set, dozens of distinct templates in a row (with an occasional
+// return to an earlier one), reconciled after every edit: revision names, hash labels and collision counts are
+// functions of the template bytes, so rare shapes (a hash label that parses as a number, two templates whose
+// names collide) only turn up when many different templates pass through the history code.
+func runC15Churn(ctx *Ctx) *Result {
+	res := newResult()
+	srv := simapi.New()
+	w := world.New(srv)
+	reported := 0
+	for i := ctx.Lo; i < ctx.hi(); i++ {
+		if !ctx.mine(i) {
+			continue
+		}
+		r := rand.New(rand.NewSource(ctx.caseSeed(i)))
+		w.ResetLight()
+		p := int32(0)
+		set := world.NewSet(world.SetOpts{Name: "web", Replicas: int32(r.Intn(2)), Partition: &p, HistLimit: []int32{0, 2, 10, 100}[r.Intn(4)]})
+		w.Srv.Seed(simapi.Sets, set)
+		w.DeliverAll()
+		var images []string
+		numeric := map[string]bool{}
+		for k := 0; k < 40; k++ {
+			img := fmt.Sprintf("img:%d-%d", ctx.caseSeed(i)%100000, k)
+			if k%7 == 6 {
+				img = images[r.Intn(len(images))] // back to an earlier template
+				res.Stats["churn_returns_to_an_earlier_template"]++
+			}
+			images = append(images, img)
+			w.EditSet("web", func(s *asv1.StatefulSet) { s.Spec.Template.Spec.Containers[0].Image = img })
+			w.DeliverAll()
+			rec := w.Reconcile(world.NS + "/web")
+			res.Evaluations++
+			res.Stats["churn_reconciles"]++
+			if rec.Panic != nil {
+				res.Stats["panics"]++
+				if reported < 3 {
+					reported++
+					res.Violations = append(res.Violations, Witness{Prop: "C15", Clause: "reconcile-panicked", Msg: fmt.Sprintf("reconcile panicked after template edit #%d of a long history (image %s): %v", k, img, rec.Panic),
+						Family: "c15churn", Case: i, Seed: ctx.Seed, Tier: ctx.Tier, Detail: j{"images": images, "stack": rec.Stack}})
+				}
+				break
+			}
+			for _, rev := range world.RevisionsOf(w.Srv.Snap(), world.NS) {
+				if h := rev.Labels["controller.kubernetes.io/hash"]; h != "" && strings.Trim(h, "0123456789") == "" && !numeric[rev.Name] {
+					numeric[rev.Name] = true
+					res.Stats["churn_revisions_with_all_digit_hash_label"]++
+				}
+			}
+			for _, n := range w.PodNames() {
+				w.Kubelet(n, "settle")
+			}
+			w.DeliverAll()
+		}
+		res.sig(fmt.Sprint("churn", images))
+	}
+	return res
+}
+
 func init() {
 	n1 := scenarioCases(40000, 600000)
 	register(&Check{Prop: "C15", Level: "exploration",
-		Rule: "StatefulSets are generated as JSON over the fields the shipped CRD knows (each optional block absent / empty / partially filled / hostile: nil and negative partition, unknown policy and strategy strings, malformed and out-of-range annotations, hostile status), admitted and defaulted by an interpreter of manifests/crd.v1.yaml, decoded into the Go type, with or without client-side defaulting, combined with a random pod population at ordinals 0..9, then reconciled 6 times with kubelet progress in between; plus the hostile scenario family (defaulted specs under faults, lag, restarts, deleted and re-created sets, caches catching up mid-reconcile) under the same panic monitor; a panic (or a dead worker process) is a violation; distinct = distinct (admitted object, population)",
+		Rule: "StatefulSets are generated as JSON over the fields the shipped CRD knows (each optional block absent / empty / partially filled / hostile: nil and negative partition, unknown policy and strategy strings, malformed and out-of-range annotations, hostile status), admitted and defaulted by an interpreter of manifests/crd.v1.yaml, decoded into the Go type, with or without client-side defaulting, combined with a random pod population at ordinals 0..9 (a fifth of them also with pods at the ends of the int32 ordinal range and just outside what parses as an ordinal), then reconciled 6 times with kubelet progress in between, the object's add / update (metadata touch) / delete events and its pods' events being delivered to the handlers the controller registered, under the same monitor; plus the hostile scenario family (defaulted specs under faults, lag, restarts, deleted and re-created sets, caches catching up mid-reconcile) under the same panic monitor; plus template churn (40 distinct templates in a row per set with returns to earlier ones, so that rare revision-name / hash-label shapes pass through the history code); a panic (or a dead worker process) is a violation; distinct = distinct (admitted object, population)",
 		Assume: []string{"replicas so large that the per-ordinal slice cannot be allocated are outside the generated domain (an out-of-memory question)",
 			"JSON that the CRD admits but that does not decode into the Go type never reaches the controller (the informer fails earlier) and is skipped"},
-		Cases:            func(t string) int { return n1(t) + scenarioCases(2400, 48000)(t) },
-		Run:              both(runC15, n1, runC15Hostile),
-		Floors:           []string{"reconciled_with_nil_partition", "reconciled_with_negative_partition", "without_client_side_defaulting", "with_client_side_defaulting", "annotation_slots_malformed", "hostile_scenario_reconciles", "objects_without_spec"},
+		Cases:            func(t string) int { return n1(t) + scenarioCases(2400, 48000)(t) + scenarioCases(800, 16000)(t) },
+		Run:              both(runC15, n1, both(runC15Hostile, scenarioCases(2400, 48000), runC15Churn)),
+		Floors:           []string{"reconciled_with_nil_partition", "reconciled_with_negative_partition", "without_client_side_defaulting", "with_client_side_defaulting", "annotation_slots_malformed", "hostile_scenario_reconciles", "objects_without_spec", "set_update_events_delivered", "set_delete_events_delivered", "churn_reconciles", "churn_revisions_with_all_digit_hash_label", "populations_with_extreme_ordinals"},
 		DeathIsViolation: true})
 }
